@@ -14,7 +14,7 @@ func init() {
 	register(&PropDef{
 		ID:    "C34",
 		Pkgs:  []string{pfp},
-		Claim: "Decides the structural part: READY (and a picker carrying a subchannel) is reported only on arms where the reporting subchannel's new (raw resp. health) state is READY, with that same subchannel in the picker; the raw-READY arm shuts down all other subchannels before reporting anything, and shutdownRemaining keeps only the selected one; both state callbacks do nothing for a subchannel that is no longer the active one for its address and record the raw state first; in a pass Connect is requested only for an IDLE subchannel and the walk stops there (no second attempt in the same call), failed addresses are marked; the first pass ends (firstPass=false, TRANSIENT_FAILURE reported) only when the address list is exhausted and no subchannel is unmarked; outside the first pass the subchannel callback reports only TRANSIENT_FAILURE (never CONNECTING), in the first pass CONNECTING is not reported for a subchannel whose effective state is TRANSIENT_FAILURE, and duplicate-state suppression never drops a TRANSIENT_FAILURE report; the address list installed is interleave(deDup(addresses)) and deDup keeps an address only on the not-seen arm; the happy-eyeballs timer callback reads its cancellation flag, advances the list and requests the next connection only with the balancer mutex held, all timer cancellations run under that mutex, and balancer/subchannel bookkeeping fields are accessed under it.",
+		Claim: "Decides the structural part: READY (and a picker carrying a subchannel) is reported only on arms where the reporting subchannel's new (raw resp. health) state is READY, with that same subchannel in the picker; the raw-READY arm shuts down all other subchannels before reporting anything, and shutdownRemaining keeps only the selected one; both state callbacks do nothing for a subchannel that is no longer the active one for its address and record the raw state first; in a pass Connect is requested only for an IDLE subchannel and the walk stops there (no second attempt in the same call), failed addresses are marked; the first pass ends (firstPass=false, TRANSIENT_FAILURE reported) only when the address list is exhausted and no subchannel is unmarked; outside the first pass the subchannel callback reports only TRANSIENT_FAILURE (never CONNECTING), in the first pass CONNECTING is not reported for a subchannel whose effective state is TRANSIENT_FAILURE, and duplicate-state suppression never drops a TRANSIENT_FAILURE report; the address list installed is interleave(deDup(addresses)) and deDup keeps an address only on the not-seen arm; the happy-eyeballs timer callback reads its cancellation flag, advances the list and requests the next connection only with the balancer mutex held, all timer cancellations run under that mutex, and balancer/subchannel bookkeeping fields are accessed under it. The existing connection is kept across a resolver update only if the previously selected subchannel was raw READY; no Connect follows a failed subchannel creation and the walk is abandoned only then; the policy drops back to IDLE only when the selected subchannel left READY or went from CONNECTING straight to IDLE.",
 		NotDecided:  []string{"that interleaving is a permutation preserving per-family order (value property of the slices)", "the state space of address lists x subchannel event orders against a model", "RFC 8305 family classification of address strings"},
 		Assumptions: []string{"sync.Mutex and sync.OnceFunc semantics", "the channel delivers subchannel state updates serially"},
 		Technique:   "static analysis: must-hold branch facts and refusing-arm unreachability on go/ssa (including range-over-func bodies via their exit codes), must-pass-through, value identity of picker contents, who-may-write, must-lockset including captured cells",
